@@ -210,43 +210,41 @@ def check(ctx: Ctx) -> list[RuleResult]:
     out.append(r4)
 
     # ---- R5 ---------------------------------------------------------------------------
-    r5 = RuleResult("R5", "phase classification is a partition", "TENDER/ACCEPT/AFFIRM tests of is_phase are mutually exclusive", min_instances=3)
+    # decision table of is_phase (predeval.py): for every packet shape (verb, code, the relations between dst/src/ALL) at most one
+    # of TENDER / ACCEPT / AFFIRM holds - however the three tests are spelled or ordered
+    from ..predeval import PredEval, Unsupported
+
+    r5 = RuleResult("R5", "phase classification is a partition", "decision table of is_phase: TENDER/ACCEPT/AFFIRM are mutually exclusive for every packet shape", min_instances=3)
     ip = repo.func(f"{MOD}.BindStateBase.is_phase")
-    rets: dict[str, ast.expr] = {}
-    last = None
-    for st in ip.node.body:
-        if isinstance(st, ast.If) and isinstance(st.test, ast.Compare) and norm(st.test.left) == "phase" and isinstance(st.body[0], ast.Return):
-            rets[norm(st.test.comparators[0]).split(".")[-1]] = st.body[0].value  # type: ignore[assignment]
-        elif isinstance(st, ast.Return):
-            last = st.value
-    if last is not None:
-        rets["AFFIRM"] = last
-    for need in ("TENDER", "ACCEPT", "AFFIRM"):
-        if need not in rets:
-            raise AnalysisError(f"is_phase has no branch for {need}")
-
-    def shape(e: ast.expr) -> tuple[str, str, str]:
-        verb, member, tup = "?", "?", ""
-        for c in ast.walk(e):
-            if isinstance(c, ast.Compare) and norm(c.left) == "cmd.verb":
-                verb = str(ctx.consts.eval_in(ip, c.comparators[0]))
-            elif isinstance(c, ast.Compare) and norm(c.left) == "cmd.dst":
-                member = type(c.ops[0]).__name__
-                tup = norm(c.comparators[0])
-        return verb, member, tup
-
-    sh = {k: shape(v) for k, v in rets.items() if k in ("TENDER", "ACCEPT", "AFFIRM")}
-    pairs = [("TENDER", "AFFIRM"), ("TENDER", "ACCEPT"), ("ACCEPT", "AFFIRM")]
-    for a, b in pairs:
+    verbs = [ctx.const("ramses_tx.const", k) for k in ("I_", "RQ", "RP", "W_")]
+    try:
+        tabp = PredEval(ctx, ip, domains={"cmd.verb": verbs, "cmd.code": ["1FC9", "10E0"]}).table()
+    except Unsupported as err:
+        raise AnalysisError(f"is_phase is not a decision procedure the evaluator understands: {err}") from err
+    if "phase" not in tabp.subjects:
+        raise AnalysisError(f"is_phase: the phase parameter is not compared with constants (subjects: {list(tabp.subjects)})")
+    phases = {str(v): v for v in tabp.subjects["phase"]}
+    def ph(name: str):
+        for k, v in phases.items():
+            if name.lower() in k.lower():
+                return v
+        return None
+    names = {"TENDER": ph("offer") if ph("tender") is None else ph("tender"), "ACCEPT": ph("accept"), "AFFIRM": ph("confirm") if ph("affirm") is None else ph("affirm")}
+    # AFFIRM is the fall-through of the function: it stands for "any other phase value"
+    by_shape: dict[tuple, dict] = {}
+    for a, r in tabp.rows:
+        key = tuple(sorted((k, str(v)) for k, v in a.items() if k not in ("phase", "__effects__")))
+        by_shape.setdefault(key, {})[str(a["phase"])] = bool(r) if not isinstance(r, tuple) else False
+    def truth(d: dict, pv) -> bool:
+        return d.get(str(pv), d.get("<other>", False)) if pv is not None else d.get("<other>", False)
+    for x, y in (("TENDER", "AFFIRM"), ("TENDER", "ACCEPT"), ("ACCEPT", "AFFIRM")):
         r5.instances += 1
         r5.nontrivial += 1
-        va, ma, ta = sh[a]
-        vb, mb, tb = sh[b]
-        excl = (va != vb and "?" not in (va, vb)) or (ta == tb and {ma, mb} in ({"In", "NotIn"}, {"Is", "IsNot"}, {"Eq", "NotEq"}))
-        if excl:
-            r5.ok({"pair": f"{a}/{b}", "shapes": [sh[a], sh[b]]})
+        both = [k for k, d in by_shape.items() if truth(d, names[x]) and truth(d, names[y])]
+        if both:
+            r5.fail(f"is_phase:{x}/{y}", ip.loc(), f"the {x} and {y} phase tests are not mutually exclusive: one packet could be taken for both phases", [", ".join(f"{k}={v}" for k, v in both[0])[:240]])
         else:
-            r5.fail(f"is_phase:{a}/{b}", ip.loc(), f"the {a} and {b} phase tests are not mutually exclusive: one packet could be taken for both phases", [f"{a}: {norm(rets[a])}", f"{b}: {norm(rets[b])}"])
+            r5.ok({"pair": f"{x}/{y}", "packet_shapes": len(by_shape), "never_both": True})
     out.append(r5)
     # ---- R6 ---------------------------------------------------------------------------
     # Only an *offer* is broadcast to every device that is waiting to bind; accepts and confirms reach a binding device only when
